@@ -460,7 +460,8 @@ def check(P, R, tier):
 LEVEL = ("Decides month / year addition structurally for all dates and counts: 12*year + month moves by exactly n (linear loop "
          "invariant), the stored month stays in 1..12 (interval analysis), only year and month are written so the day is kept and "
          "steps compose, every fixup clamps exactly its field down to the maximum and skips only values every period has, and "
-         "the fixup dominates every conversion and print.  The clamp targets themselves (days per month etc.) are computed "
-         "values: their tables are decided under C01, their arithmetic is not decided.")
+         "the fixup dominates every conversion and print.  On top of that the adders are decoded with the count symbolic over "
+         "+-40 months / +-6 years and the four fixups over their whole domain (RF2-mon).  The clamp targets themselves (days per "
+         "month etc.) are decoded as tables under C01 / C03 (RF2-closed).")
 RULE = "obligation = one adder invariant / range / write set, one fixup clamp, one dominance fact"
 ASSUME = ["results stay inside the 12-bit year field (the property's 'result in range')", "input months are 1..12"]
